@@ -1,8 +1,8 @@
 SPECIFICATION Spec
 CONSTANTS
   Origins = {1}
-  MaxW = 3
-  MaxH = 1
+  MaxW = 2
+  MaxH = 2
   TypeSet = {"OptString", "Optf64", "Data"}
   CodeSet = {"E", "Sx", "I7", "XNA"}
   CfgKinds = {"all", "custom", "recab"}
